@@ -61,6 +61,9 @@ enum S {
     Ver(u32, String),
     /// an invalid value (`Value::from(Error)`)
     Inv(String),
+    /// user object with a chosen repr (s/m/i), enumerator variant, size-hint honesty class and
+    /// optional `enumerator_len` override: `cfg` = 4 chars, see `HintObj`
+    Hint(String, Vec<(S, S)>),
     /// the silent undefined (`(1 if false)` evaluated through the expression API)
     USilent,
 }
@@ -111,11 +114,110 @@ impl Object for VerObj {
     }
 }
 
+
+/// iterator wrapper that reports a chosen size hint
+struct HintIter<I> {
+    inner: I,
+    hint: (usize, Option<usize>),
+}
+impl<I: Iterator> Iterator for HintIter<I> {
+    type Item = I::Item;
+    fn next(&mut self) -> Option<I::Item> {
+        self.inner.next()
+    }
+    fn size_hint(&self) -> (usize, Option<usize>) {
+        self.hint
+    }
+}
+impl<I: DoubleEndedIterator> DoubleEndedIterator for HintIter<I> {
+    fn next_back(&mut self) -> Option<I::Item> {
+        self.inner.next_back()
+    }
+}
+
+/// A user object for every enumerator variant and size-hint honesty class.
+/// cfg[0] repr: `s` Seq, `m` Map, `i` Iterable;
+/// cfg[1] enumerator: `q` Seq(n), `v` Values, `t` Iter, `r` RevIter, `k` KeyValueIter, `j` RevKeyValueIter, `e` Empty,
+///        `n` NonEnumerable;
+/// cfg[2] size hint of the iterator (all within the `Iterator` contract lower ≤ count ≤ upper):
+///        `x` exact (n, Some(n)), `u` (0, None), `b` (lower < n, Some(upper > n)), `p` (0, Some(n)), `l` (n-1, None);
+/// cfg[3] `o` = `enumerator_len` overridden with the true count, `d` = the trait's default.
+/// Map reprs hold (key, value) pairs and look keys up with `==`; the others hold the keys as items.
+#[derive(Debug)]
+struct HintObj {
+    cfg: [u8; 4],
+    pairs: Vec<(Value, Value)>,
+}
+impl HintObj {
+    fn hint(&self) -> (usize, Option<usize>) {
+        let n = self.pairs.len();
+        match self.cfg[2] {
+            b'x' => (n, Some(n)),
+            b'u' => (0, None),
+            b'b' => (n.saturating_sub(1), Some(n + 2)),
+            b'p' => (0, Some(n)),
+            _ => (n.saturating_sub(1), None),
+        }
+    }
+}
+impl Object for HintObj {
+    fn repr(self: &Arc<Self>) -> ObjectRepr {
+        match self.cfg[0] {
+            b's' => ObjectRepr::Seq,
+            b'm' => ObjectRepr::Map,
+            _ => ObjectRepr::Iterable,
+        }
+    }
+    fn get_value(self: &Arc<Self>, key: &Value) -> Option<Value> {
+        if self.cfg[0] == b'm' {
+            self.pairs.iter().find(|(k, _)| k == key).map(|(_, v)| v.clone())
+        } else {
+            self.pairs.get(key.as_usize()?).map(|(k, _)| k.clone())
+        }
+    }
+    fn enumerate(self: &Arc<Self>) -> Enumerator {
+        let keys: Vec<Value> = self.pairs.iter().map(|(k, _)| k.clone()).collect();
+        let hint = self.hint();
+        match self.cfg[1] {
+            b'q' => Enumerator::Seq(keys.len()),
+            b'v' => Enumerator::Values(keys),
+            b't' => Enumerator::Iter(Box::new(HintIter { inner: keys.into_iter(), hint })),
+            b'r' => Enumerator::RevIter(Box::new(HintIter { inner: keys.into_iter(), hint })),
+            b'k' => Enumerator::KeyValueIter(Box::new(HintIter { inner: self.pairs.clone().into_iter(), hint })),
+            b'j' => Enumerator::RevKeyValueIter(Box::new(HintIter { inner: self.pairs.clone().into_iter(), hint })),
+            b'e' => Enumerator::Empty,
+            _ => Enumerator::NonEnumerable,
+        }
+    }
+    fn enumerator_len(self: &Arc<Self>) -> Option<usize> {
+        if self.cfg[3] == b'o' {
+            Some(if self.cfg[1] == b'e' { 0 } else { self.pairs.len() })
+        } else {
+            // the trait's default body (`self.enumerate().query_len()`): reached through a delegating object
+            DefaultLen(self.clone()).default_len()
+        }
+    }
+}
+
+/// reaches the default body of `Object::enumerator_len` for the enumerator of another object
+#[derive(Debug)]
+struct DefaultLen(Arc<HintObj>);
+impl Object for DefaultLen {
+    fn enumerate(self: &Arc<Self>) -> Enumerator {
+        self.0.enumerate()
+    }
+}
+impl DefaultLen {
+    fn default_len(self) -> Option<usize> {
+        Arc::new(self).enumerator_len()
+    }
+}
+
 fn has_invalid(s: &S) -> bool {
     match s {
         S::Inv(_) => true,
         S::Seq(xs) | S::Tuple(xs) | S::Iter(xs, _) | S::OSeq(xs) | S::Once(xs) => xs.iter().any(has_invalid),
-        S::Map(ps) | S::OMap(ps) => ps.iter().any(|(k, v)| has_invalid(k) || has_invalid(v)),
+        S::Map(ps) | S::OMap(ps) | S::Hint(_, ps) => ps.iter().any(|(k, v)| has_invalid(k) || has_invalid(v)),
         _ => false,
     }
 }
@@ -124,7 +226,7 @@ fn volatile(s: &S) -> bool {
     match s {
         S::Once(_) => true,
         S::Seq(xs) | S::Tuple(xs) | S::Iter(xs, _) | S::OSeq(xs) => xs.iter().any(volatile),
-        S::Map(ps) | S::OMap(ps) => ps.iter().any(|(k, v)| volatile(k) || volatile(v)),
+        S::Map(ps) | S::OMap(ps) | S::Hint(_, ps) => ps.iter().any(|(k, v)| volatile(k) || volatile(v)),
         _ => false,
     }
 }
@@ -176,6 +278,10 @@ fn build(s: &S) -> Value {
         S::OSeq(xs) => Value::from_object(OSeqObj(xs.iter().map(build).collect())),
         S::Ver(n, t) => Value::from_object(VerObj(*n, t.clone())),
         S::Inv(msg) => Value::from(minijinja::Error::new(minijinja::ErrorKind::InvalidOperation, msg.clone())),
+        S::Hint(cfg, ps) => {
+            let c = cfg.as_bytes();
+            Value::from_object(HintObj { cfg: [c[0], c[1], c[2], c[3]], pairs: ps.iter().map(|(k, v)| (build(k), build(v))).collect() })
+        }
         S::USilent => {
             let env = Environment::new();
             env.compile_expression("(1 if false)").unwrap().eval(()).unwrap()
@@ -218,6 +324,13 @@ fn enc(s: &S) -> String {
         S::OSeq(xs) => format!("[={}]", list(xs)),
         S::Ver(n, t) => format!("C.{n}_{t}"),
         S::Inv(m) => format!("X.{}", hex(m.as_bytes())),
+        S::Hint(cfg, ps) => {
+            if cfg.starts_with('m') {
+                format!("{{@{cfg}|{}}}", ps.iter().map(|(k, v)| format!("{}:{}", enc(k), enc(v))).collect::<Vec<_>>().join(","))
+            } else {
+                format!("[@{cfg}|{}]", ps.iter().map(|(k, _)| enc(k)).collect::<Vec<_>>().join(","))
+            }
+        }
         S::USilent => "us".into(),
     }
 }
@@ -251,6 +364,11 @@ fn dec(src: &str) -> S {
         match b[*i] {
             b'[' => {
                 *i += 1;
+                if b[*i] == b'@' {
+                    let cfg = std::str::from_utf8(&b[*i + 1..*i + 5]).unwrap().to_string();
+                    *i += 6;
+                    return S::Hint(cfg, items(b, i, b']').into_iter().map(|k| (k, S::None)).collect());
+                }
                 if b[*i] == b'=' {
                     *i += 1;
                     S::OSeq(items(b, i, b']'))
@@ -282,7 +400,15 @@ fn dec(src: &str) -> S {
                 if omap {
                     *i += 1;
                 }
-                let mk = move |ps: Vec<(S, S)>| if omap { S::OMap(ps) } else { S::Map(ps) };
+                let mut hint_cfg: Option<String> = None;
+                if b[*i] == b'@' {
+                    hint_cfg = Some(std::str::from_utf8(&b[*i + 1..*i + 5]).unwrap().to_string());
+                    *i += 6;
+                }
+                let mk = move |ps: Vec<(S, S)>| match &hint_cfg {
+                    Some(c) => S::Hint(c.clone(), ps),
+                    None => if omap { S::OMap(ps) } else { S::Map(ps) },
+                };
                 let mut ps = vec![];
                 if b[*i] == b'}' {
                     *i += 1;
@@ -544,14 +670,18 @@ fn run_val(a: &Value) -> String {
     guarded(|| {
         let c = a.clone();
         format!(
-            "{} len={} selfeq={} selfcmp={} cloneeq={} clonecmp={} clonehash={}",
+            "{} len={} selfeq={} selfcmp={} cloneeq={} clonecmp={} clonehash={} ilen={} icount={} truthy={}",
             kind_name(a),
             if a.kind() == minijinja::value::ValueKind::Map { a.len().map_or("?".to_string(), |n| n.to_string()) } else { "-".to_string() },
             (a == a) as u8,
             ord_char(a.cmp(a)),
             (*a == c) as u8,
             ord_char(a.cmp(&c)),
-            (hash_of(a) == hash_of(&c)) as u8
+            (hash_of(a) == hash_of(&c)) as u8,
+            // the reported length, the number of items a walk yields, truthiness
+            if a.as_object().is_some() { a.len().map_or("-".to_string(), |n| n.to_string()) } else { "-".to_string() },
+            if a.as_object().is_some() { a.try_iter().map(|it| it.count().to_string()).unwrap_or("-".to_string()) } else { "-".to_string() },
+            a.is_true() as u8
         )
     })
     .unwrap_or_else(|_| "panic".into())
@@ -607,7 +737,7 @@ fn volatile_pair(specs: Option<(&S, &S)>) -> bool {
     specs.map_or(false, |(a, b)| volatile(a) || volatile(b))
 }
 
-const TPLS: [&str; 9] = [
+const TPLS: [&str; 11] = [
     "{{ 1 if a < b else 0 }}",
     "{{ 1 if a == b else 0 }}",
     "{{ 1 if a in [b] else 0 }}",
@@ -617,6 +747,8 @@ const TPLS: [&str; 9] = [
     "{{ 1 if a > b else 0 }}",
     "{{ 1 if a in {b: 1, '~sentinel~': 2} else 0 }}",
     "{{ 1 if {b: 1, '~sentinel~': 2}[a] is defined else 0 }}",
+    "{{ 1 if ([a, b]|unique(case_sensitive=true)|list|length) == 1 else 0 }}",
+    "{{ 1 if ([a]|select('eq', b)|list|length) == 1 else 0 }}",
 ];
 
 fn tpl_env() -> Environment<'static> {
@@ -1606,6 +1738,46 @@ fn run_rev(env: &Environment<'static>, shape: &str, word: &str) -> String {
     if fc.fails.is_empty() { format!("ok {}", fc.n) } else { format!("FAIL {} {}", fc.n, fc.fails.join(" || ")) }
 }
 
+// ------------------------------------------------------------------------------------------ size hints
+
+/// user objects of every repr × enumerator variant × size-hint class × with/without `enumerator_len`
+/// override, holding {} / {a:1} / {a:1,b:2} (or [] / [a] / [a,b]), next to plain maps / lists with the
+/// same and with sub- and super-sets of the content
+fn hint_zoo() -> Vec<S> {
+    let contents: Vec<Vec<(S, S)>> = vec![vec![], vec![(s0("a"), i(1))], vec![(s0("a"), i(1)), (s0("b"), i(2))]];
+    let mut z: Vec<S> = vec![];
+    for c in &contents {
+        z.push(S::Map(c.clone()));
+        z.push(S::OMap(c.clone()));
+        z.push(S::Seq(c.iter().map(|(k, _)| k.clone()).collect()));
+        z.push(S::Iter(c.iter().map(|(k, _)| k.clone()).collect(), false));
+        z.push(S::Tuple(c.iter().map(|(k, _)| k.clone()).collect()));
+    }
+    z.push(S::Map(vec![(s0("a"), i(1)), (s0("b"), i(3))]));
+    z.push(S::Map(vec![(s0("b"), i(2))]));
+    let combos: [(&str, &str); 3] = [("s", "qvtre"), ("m", "kjvtre"), ("i", "vtre")];
+    for (r, vars) in combos {
+        for v in vars.chars() {
+            let hints = if "trkj".contains(v) { "xubpl" } else { "x" };
+            for h in hints.chars() {
+                for o in ["d", "o"] {
+                    for c in &contents {
+                        if v == 'e' && !c.is_empty() {
+                            continue;
+                        }
+                        let c2: Vec<(S, S)> = if r == "m" { c.clone() } else { c.iter().map(|(k, _)| (k.clone(), S::None)).collect() };
+                        z.push(S::Hint(format!("{r}{v}{h}{o}"), c2));
+                    }
+                }
+            }
+        }
+    }
+    // the trait's defaults: Map repr that does not enumerate (what `impl Object for T {}` gives)
+    z.push(S::Hint("mnxd".into(), vec![]));
+    z.push(S::Hint("mnxd".into(), vec![(s0("a"), i(1))]));
+    z
+}
+
 // ------------------------------------------------------------------------------------------ random nested values
 
 fn rand_scalar(rng: &mut Rng) -> S {
@@ -2130,6 +2302,27 @@ fn main() {
                 for x in 0..batch.len() {
                     for y in 0..batch.len() {
                         writeln!(out, "rpair {bi} {x} {y}\t{}", run_pair_s(Some((&batch[x], &batch[y])), &va[x], &vb[y])).unwrap();
+                    }
+                }
+            }
+            // size-hint objects: every ordered pair, and the template operators on them
+            {
+                let hz = hint_zoo();
+                let va: Vec<Value> = hz.iter().map(build).collect();
+                let vb: Vec<Value> = hz.iter().map(build).collect();
+                for (k, sp) in hz.iter().enumerate() {
+                    let e = enc(sp);
+                    assert_eq!(&dec(&e), sp, "encoding does not round-trip: {e}");
+                    writeln!(out, "rval h {k} {e}\t{}", run_val(&va[k])).unwrap();
+                }
+                for x in 0..hz.len() {
+                    for y in 0..hz.len() {
+                        let res = run_pair_s(Some((&hz[x], &hz[y])), &va[x], &vb[y]);
+                        let interesting = res.starts_with('E') || res.contains(" 1 ") || thorough || (x * 7 + y * 13) % 16 == 0;
+                        writeln!(out, "rpair h {x} {y}\t{res}").unwrap();
+                        if interesting && !res.contains('P') {
+                            writeln!(out, "rtpl h {x} {y}\t{}", run_tpl(&env, &va[x], &vb[y])).unwrap();
+                        }
                     }
                 }
             }
